@@ -315,14 +315,19 @@ def gen_plan(rng, tier, idx):
             auto = rng.choice(["auto_periodic_neumann", "auto_periodic_dirichlet"])
             eqs[f"e{ne}"] = rng.choice([{"cls": "DiffusionPDE", "diffusivity": 1, "bc": auto},
                                         {"cls": "PDE", "rhs": {"c": "laplace(c) - c"}, "consts": {}, "bc": auto},
+                                        {"cls": "PDE", "rhs": {"c": "laplace(c)"}, "consts": {}, "bc": auto},
+                                        {"cls": "PDE", "rhs": {"c": "k * laplace(c) + c"}, "consts": {"k": 2}, "bc": auto},
                                         {"cls": "AllenCahnPDE", "interface_width": 1, "mobility": 1, "bc": auto}])
+            # (only the PDE class keeps prepared functions between calls, one set per backend: mostly the same backend twice)
+            be_common = rng.choice(["numpy", "numba"])
 
             def use(fid):
+                be = be_common if rng.random() < 0.75 else rng.choice(["numpy", "numba"])
                 if rng.random() < 0.6:
                     return {"op": "rate", "eq": f"e{ne}", "state": fid, "t": 0.0, "via": rng.choice(["evolution_rate", "make_pde_rhs"]),
-                            "backend": rng.choice(["numpy", "numba"])}
+                            "backend": be}
                 return {"op": "solve", "eq": f"e{ne}", "state": fid, "steps": 1, "dt": 1e-4, "solver": "euler",
-                        "backend": rng.choice(["numpy", "numba"]), "kw": {}}
+                        "backend": be, "kw": {}}
 
             motif = [use(f"f{nf}"), use(f"f{nf + 1}")]
             if rng.random() < 0.5:
